@@ -43,11 +43,18 @@ func NewBinomialDistribution(theta Scalar, n int) (*BinomialDistribution, error)
   if theta.GetFloat64() < 0.0 || theta.GetFloat64() > 1.0 || n < 0 {
     return nil, fmt.Errorf("invalid parameters")
   }
-  t := theta.Type()
+  logTheta := NewScalar(theta.Type(), 0.0)
+  logTheta.Log(theta)
+  return newBinomialDistribution(logTheta, n), nil
+}
+
+// all state is a function of log(theta) and n, so that cloning and
+// SetParameters(GetParameters()) reproduce the distribution exactly
+func newBinomialDistribution(logTheta Scalar, n int) *BinomialDistribution {
+  t := logTheta.Type()
   dist := BinomialDistribution{}
 
-  dist.Theta = NewScalar(t, 0.0)
-  dist.Theta.Log(theta)
+  dist.Theta = logTheta.CloneScalar()
   dist.n     = NewScalar(t, float64(n+0))
   dist.np1   = NewScalar(t, float64(n+1))
 
@@ -57,23 +64,21 @@ func NewBinomialDistribution(theta Scalar, n int) (*BinomialDistribution, error)
   // c1 = 1
   dist.c1 = NewScalar(t, 1.0)
   // ct = Log(1-theta)
-  dist.ct = NewScalar(t, 1.0)
-  dist.ct.Sub(dist.ct, theta)
+  dist.ct = NewScalar(t, 0.0)
+  dist.ct.Exp(dist.Theta)
+  dist.ct.Sub(dist.c1, dist.ct)
   dist.ct.Log(dist.ct)
   // temporary memory
   dist.t1 = NewScalar(t, 0.0)
   dist.t2 = NewScalar(t, 0.0)
 
-  return &dist, nil
+  return &dist
 }
 
 /* -------------------------------------------------------------------------- */
 
 func (dist *BinomialDistribution) Clone() *BinomialDistribution {
-  t := NewScalar(dist.ScalarType(), 0.0)
-  t.Exp(dist.Theta)
-  r, _ := NewBinomialDistribution(t, int(dist.n.GetFloat64()))
-  return r
+  return newBinomialDistribution(dist.Theta, int(dist.n.GetFloat64()))
 }
 
 func (dist *BinomialDistribution) CloneScalarPdf() ScalarPdf {
@@ -159,14 +164,13 @@ func (dist *BinomialDistribution) GetParameters() Vector {
 }
 
 func (dist *BinomialDistribution) SetParameters(parameters Vector) error {
+  // the first parameter is log(theta), see GetParameters()
   t := parameters.At(0)
-  t.Exp(t)
   n := parameters.At(1)
-  if tmp, err := NewBinomialDistribution(t, int(n.GetFloat64())); err != nil {
-    return err
-  } else {
-    *dist = *tmp
+  if !(t.GetFloat64() <= 0.0) || int(n.GetFloat64()) < 0 {
+    return fmt.Errorf("invalid parameters")
   }
+  *dist = *newBinomialDistribution(t, int(n.GetFloat64()))
   return nil
 }
 
